@@ -74,7 +74,8 @@ class PE:
                     if bind[kk] == UNSURE:
                         raise r_mpt.Unknown()
                     return bind[kk]
-                if self.memory and (k == "sub" or (k == "un" and n.get("op") == "*")):
+                if self.memory and (k == "sub" or (k == "un" and n.get("op") == "*") or
+                                    (k == "mem" and "t" in n and u.type(n["t"])["k"] != "arr")):
                     try:
                         a = self._addr(n, rec)
                     except r_mpt.Unknown:
